@@ -98,7 +98,7 @@ func run(casesPath, outPath string, seed int64, replayDir string, maxReplays int
 		}
 		seen[key] = true
 		var p *prepared
-		if c.Q.Mq != nil {
+		if len(c.Q.MqRaw) > 0 {
 			p = prepareMetricCase(c, seed)
 		} else {
 			p = prepareLogCase(c, seed)
@@ -127,7 +127,7 @@ func run(casesPath, outPath string, seed int64, replayDir string, maxReplays int
 		var out *caseOutcome
 		if p.out.infra != "" {
 			out = p.out
-		} else if c.Q.Mq != nil {
+		} else if len(c.Q.MqRaw) > 0 {
 			out = runMetricCase(w, p)
 		} else {
 			out = runLogCase(w, p)
@@ -258,6 +258,7 @@ type prepared struct {
 	entries []CEntry
 	req     CRequest
 	out     *caseOutcome
+	mq      *AMq
 }
 
 func prepareLogCase(c *ACase, seed int64) *prepared {
